@@ -115,7 +115,7 @@ fn candidates(p: &Plan) -> Vec<Plan> {
         }};
     }
     cfg_off!(cli_concurrency, None);
-    cfg_off!(builder_concurrency, None);
+    cfg_off!(builder_concurrency, crate::plan::BuilderLimit::Unset);
     cfg_off!(cli_retry, None);
     cfg_off!(builder_retries, None);
     cfg_off!(cli_retry_after_ns, None);
